@@ -35,7 +35,7 @@ class ModelMixin:
                      "ite", "unit", "is_none", "is_str", "is_int", "is_ref", "last", "ref", "allocated",
                      "held", "is_list_of_pos_int", "cls_id", "is_float", "sval", "ival", "dget", "singleton", "str", "is_bool", "is_dict", "is_list",
                      "setof", "contains", "prefix_of", "is_bytes", "is_cls", "map_int2str", "joinstr", "split", "lookup_global",
-                     "funcval", "seqmap", "extends", "only_changed", "UNSET", "unchanged", "unchanged_old", "cls_module_name", "all_reports", "empty_log", "count_failed", "suffix_of", "proj_a", "all_b", "all_tag", "card", "outside", "mro", "none_in", "is_concat", "none_missing", "is_subset", "union", "restrict", "lvk", "unlvk", "filter_out", "params_of", "truthy", "is_prefix", "proj_b", "all_b_not", "all_a", "all_nat", "levelstr", "ascii_ok", "bytes_of", "str_contains", "codec_facts", "is_tuple"}
+                     "funcval", "seqmap", "extends", "only_changed", "UNSET", "unchanged", "unchanged_old", "cls_module_name", "all_reports", "empty_log", "count_failed", "suffix_of", "proj_a", "all_b", "all_tag", "card", "outside", "mro", "none_in", "is_concat", "none_missing", "is_subset", "union", "restrict", "lvk", "unlvk", "prefkeys", "setminus", "all_values", "ref_field", "filter_out", "params_of", "truthy", "is_prefix", "proj_b", "all_b_not", "all_a", "all_nat", "levelstr", "ascii_ok", "bytes_of", "str_contains", "codec_facts", "is_tuple"}
 
     # ------------------------------------------------------------------ spec-mode calls
     def spec_call(self, e, st):
@@ -127,8 +127,15 @@ class ModelMixin:
             vars_.append(v)
         st.fid = fid
         npc = len(st.pc)
+        pats = []
         try:
             body = self.truth(st, self.ev1(lam.body, st))
+            # pat=[expr, ...]: explicit instantiation triggers (alternatives), written over the bound variables
+            for kw in e.keywords:
+                if kw.arg == "pat":
+                    for pe in (kw.value.elts if isinstance(kw.value, (ast.List, ast.Tuple)) else [kw.value]):
+                        pv = self.ev1(pe, st)
+                        pats.append(pv.t if pv.k in ("bool", "int", "str", "seq", "seqe", "sset") else box(pv))
         finally:
             st.fid = saved
         # assumptions introduced under the binder must not leak as global facts about bound variables
@@ -136,7 +143,36 @@ class ModelMixin:
         del st.pc[npc:]
         if leaked:
             body = z3.Implies(z3.And(*leaked), body) if which == "forall" else z3.And(z3.And(*leaked), body)
+        if pats:
+            # pattern purification: ground compound subterms (heap reads through store chains ...) are named by fresh constants, so that
+            # the trigger is a plain application over constants and the bound variables (interpreted array terms make brittle triggers)
+            pats = [self.purify_pattern(st, p_, vars_) for p_ in pats]
+            return SV("bool", z3.ForAll(vars_, body, patterns=pats) if which == "forall" else z3.Exists(vars_, body, patterns=pats))
         return SV("bool", z3.ForAll(vars_, body) if which == "forall" else z3.Exists(vars_, body))
+
+    def purify_pattern(self, st, p, bound):
+        ids = {b.get_id() for b in bound}
+        memo = {}
+
+        def has_bound(t):
+            if t.get_id() in ids:
+                return True
+            return any(has_bound(c) for c in t.children())
+
+        def go(t):
+            if t.get_id() in memo:
+                return memo[t.get_id()]
+            if not z3.is_app(t) or t.num_args() == 0:
+                r = t
+            elif not has_bound(t):
+                c = self.fresh("pt", t.sort())
+                st.assume(c == t)
+                r = c
+            else:
+                r = t.decl()(*[go(c) for c in t.children()])
+            memo[t.get_id()] = r
+            return r
+        return go(p)
 
     def spec_builtin(self, st, name, a, e):
         if name == "implies":
@@ -185,6 +221,39 @@ class ModelMixin:
             # the dictionary key a TaskLevel with this level list stands for (content key, see pyrx.py)
             from .pyrx import LVK
             return SV("val", LVK(self.spec_builtin(st, "seq", [a[0]], e).t))
+        if name == "prefkeys":
+            # the keys of all prefixes of a level list (the node itself and its ancestors), defined by unfolding one step:
+            #   prefkeys([]) = {lvk([])};  prefkeys(L) = prefkeys(L[:-1]) + {lvk(L)}, lvk(L) not in prefkeys(L[:-1])
+            # (ground instances of the definition for L and L[:-1]; trusted definitional axiom, listed)
+            from .pyrx import LVK, PREFK
+            self.assumptions.add("prefkeys(L) (keys of the prefixes of a level list): ground instances of its recursive definition")
+            L = self.spec_builtin(st, "seq", [a[0]], e).t
+            def unfold(L, depth):
+                n = z3.Length(L)
+                init = z3.Extract(L, z3.IntVal(0), n - 1)
+                facts = [z3.Select(PREFK(L), LVK(L)),
+                         z3.Implies(n == 0, PREFK(L) == z3.Store(z3.K(Val, z3.BoolVal(False)), LVK(L), z3.BoolVal(True))),
+                         z3.Implies(n > 0, z3.And(PREFK(L) == z3.Store(PREFK(init), LVK(L), z3.BoolVal(True)),
+                                                  z3.Not(z3.Select(PREFK(init), LVK(L))), z3.Select(PREFK(init), LVK(init))))]
+                kq = z3.Const("k!pref", Val)
+                from .pyrx import UNLVK
+                # named so that the patterns are plain applications (L may be an if-then-else term)
+                p0, p1 = self.fresh("prefk", SetV), self.fresh("prefk", SetV)
+                n0, n1 = self.fresh("prefn", I), self.fresh("prefn", I)
+                facts += [p0 == PREFK(L), p1 == PREFK(init), n0 == n, n1 == n - 1]
+                facts.append(z3.ForAll([kq], z3.Implies(z3.Select(p0, kq), z3.And(z3.Length(UNLVK(kq)) <= n0, kq == LVK(UNLVK(kq)))),
+                                       patterns=[z3.Select(p0, kq)]))
+                facts.append(z3.Implies(n > 0, z3.ForAll([kq], z3.Implies(z3.Select(p1, kq), z3.And(z3.Length(UNLVK(kq)) <= n1, kq == LVK(UNLVK(kq)))),
+                                                         patterns=[z3.Select(p1, kq)])))
+                facts.append(UNLVK(LVK(L)) == L)
+                return facts
+            for f in unfold(L, 0):
+                st.assume(f)
+            if z3.is_app(L) and L.decl().kind() == z3.Z3_OP_SEQ_EXTRACT:
+                # prefkeys(Y[a:b]): every member is the key of a list no longer than the slice, so the key of a longer Y is not a member
+                Y = L.arg(0)
+                st.assume(z3.Implies(z3.Length(L) < z3.Length(Y), z3.Not(z3.Select(PREFK(L), LVK(Y)))))
+            return SV("sset", PREFK(L))
         if name == "unlvk":
             from .pyrx import UNLVK
             return SV("seq", UNLVK(box(a[0])))
@@ -218,6 +287,11 @@ class ModelMixin:
             v = self.concretize(st, a[0])
             ref = Val.rv(v.t) if v.k == "val" else v.t
             return SV("bool", ref > st.heap0["$alloc"])
+        if name == "ref_field":
+            # ref_field(x, 'attr'): the raw heap cell x.attr (no type assumption), for statements about reachability
+            v = a[0]
+            ref = Val.rv(v.t) if v.k == "val" else v.t
+            return SV("val", self.hget(st, z3.simplify(a[1].t).as_string(), ref))
         if name == "allocated":
             v = self.concretize(st, a[0])
             ref = Val.rv(v.t) if v.k == "val" else v.t
@@ -420,6 +494,18 @@ class ModelMixin:
         if name == "card":
             d1, m1 = self.as_sdict(st, self.spec_builtin(st, "dict_of", [a[0]], e))
             return SV("int", self.set_card(d1))
+        if name == "all_values":
+            # all_values(d, 'Cls'): every value stored in d is an instance of exactly that class (pointwise map combinator: no quantifier
+            # over the keys); the class test itself is a function defined by one quantified fact with a pattern
+            d1, m1 = self.as_sdict(st, self.spec_builtin(st, "dict_of", [a[0]], e))
+            cname = z3.simplify(a[1].t).as_string()
+            fn = z3.Function("is_inst_of!" + cname, Val, z3.BoolSort())
+            vq = z3.Const("v!isinst", Val)
+            st.assume(z3.ForAll([vq], fn(vq) == z3.And(Val.is_RefV(vq), clsof(Val.rv(vq)) == self._register_class(cname)), patterns=[fn(vq)]))
+            return SV("bool", z3.IsSubset(d1, z3.Map(fn, m1)))
+        if name == "setminus":
+            return SV("sset", z3.SetDifference(self.as_sset(st, a[0]) if a[0].k in ("sset", "cset") else self.as_sdict(st, self.spec_builtin(st, "dict_of", [a[0]], e))[0],
+                                               self.as_sset(st, a[1]) if a[1].k in ("sset", "cset") else self.as_sdict(st, self.spec_builtin(st, "dict_of", [a[1]], e))[0]))
         if name == "restrict":
             d1, m1 = self.as_sdict(st, self.spec_builtin(st, "dict_of", [a[0]], e))
             ks = self.as_sset(st, a[1]) if a[1].k in ("sset", "cset") else self.as_sdict(st, self.spec_builtin(st, "dict_of", [a[1]], e))[0]
@@ -727,7 +813,7 @@ class ModelMixin:
             k = z3.Const("k!srt", Val)
             st.assume(z3.Length(out) == z3.Length(sq))
             st.assume(z3.ForAll([k], z3.Contains(out, z3.Unit(k)) == z3.Contains(sq, z3.Unit(k)),
-                                patterns=[z3.Contains(out, z3.Unit(k))]))
+                                patterns=[z3.Contains(out, z3.Unit(k)), z3.Contains(sq, z3.Unit(k))]))
             return [Res(st, SV("seq", out, h=v.h))]
         raise Unsupported("sorted() of " + v.k)
 
